@@ -314,13 +314,17 @@ class XmlVar(MetaMixin):
             The choice xml var instance or None if there are no matches.
         """
         tp = type(value) if not is_tokens else type(value[0])
-        for element in self.elements.values():
-            if (element.any_type or element.clazz) or element.tokens != is_tokens:
-                continue
-
+        candidates = [
+            element
+            for element in self.elements.values()
+            if not (element.any_type or element.clazz) and element.tokens == is_tokens
+        ]
+        # An exact type match wins over a successful conversion
+        for element in candidates:
             if tp in element.types:
                 return element
 
+        for element in candidates:
             if is_tokens and all(converter.test(val, element.types) for val in value):
                 return element
 
